@@ -1,7 +1,7 @@
 // SPDX-FileCopyrightText: Copyright (c) 2022-2025 Objectionary.com
 // SPDX-License-Identifier: MIT
 
-use crate::{Persistence, Sodg};
+use crate::{Persistence, Sodg, BRANCH_NONE};
 use anyhow::Result;
 use itertools::Itertools;
 use xml_builder::{XMLBuilder, XMLElement, XMLVersion};
@@ -52,6 +52,7 @@ impl<const N: usize> Sodg<N> {
         for (v, vtx) in self
             .vertices
             .iter()
+            .filter(|(_, vtx)| vtx.branch != BRANCH_NONE)
             .sorted_by_key(|(v, _)| <usize>::clone(v))
         {
             let mut v_node = XMLElement::new("v");
